@@ -136,6 +136,13 @@ def run(ctx):
     from .c06 import snappy as snappy_rule
     snappy_rule(ctx)
     errprop(ctx)
+    ioerr_rule(ctx)
+    # the reading primitives hand over exactly the bytes asked for or fail (shared with C03 / C11): a short read must
+    # not become a shorter value
+    from .c11 import slice_rule, varint_rule, fixedbuf_rule
+    slice_rule(ctx)
+    varint_rule(ctx)
+    fixedbuf_rule(ctx)
     erronce(ctx)
     loops(ctx, nx)
     panics(ctx)
@@ -278,6 +285,39 @@ def errprop(ctx):
                 bad.append('%s: %s' % (short_fn(fl), (io_calls[0].get('callee') or '').rsplit('::', 1)[1]))
     ctx.ob('ERRPROP', 'hand-matched-io-results-propagate', not bad, None,
            'matches on the Result of an I/O / reading primitive whose Err arm does not return Err: %s (of %d such matches)' % (bad or 'none', k))
+
+
+def ioerr_rule(ctx):
+    """an I/O error stays recognisable as one: wherever the Result of a std::io call is converted into the crate's DeError
+    (datum decode path and container reader), the conversion is DeError::io / DeError::custom_io - the constructors that
+    keep the io::Error, which `io_error()` (and therefore the reader's report-once-then-end-of-stream latch) looks at"""
+    f = ctx.f
+    n = 0
+    bad = []
+    for b in f.body_list:
+        fl = fn_label(b)
+        if not fl.startswith(('de::', '<de::', P, '<' + P)):
+            continue
+        for bb, t in b.calls():
+            c = t.get('callee') or ''
+            if not c.startswith('std::io::') or b.is_cleanup(bb) or 'dest' not in t or not b.local_ty(t['dest']['l']).startswith('core::result::Result'):
+                continue
+            for b2, t2 in b.calls():
+                if strip_generics(cname(t2)).endswith('Result::map_err') and any(x is t for x in origin(b, t2['args'][0]).calls):
+                    n += 1
+                    a = t2['args'][1]
+                    keeps = False
+                    if 'const' in a and a['const'].get('fn'):
+                        keeps = strip_generics(a['const']['fn']).endswith(('DeError::io', 'DeError::custom_io'))
+                    else:
+                        for x in origin(b, a).atoms:
+                            if x[0] == 'closure' and x[1] in f.bodies:
+                                keeps = any(strip_generics(cname(ct)).endswith(('DeError::io', 'DeError::custom_io')) for _, ct in f.bodies[x[1]].calls())
+                    if not keeps:
+                        bad.append('%s: %s' % (short_fn(fl), c.rsplit('::', 1)[1]))
+    ctx.ob('IOERR', 'io-errors-keep-their-kind', not bad and n >= 1, None,
+           'std::io results converted to DeError on the decode / container-reader path: %d; converted by something other than DeError::io / custom_io: %s' % (n, bad or 'none'))
+    ctx.floor('IOERR', 'io results converted to DeError', n, 7)
 
 
 def erronce(ctx):
